@@ -159,14 +159,16 @@ function* propSets(max) {
 }
 
 function spaces(tier) {
-  const thorough = tier === 'thorough';
+  const deep = tier === 'thorough';
+  const thorough = true; // cheap: the quick tier explores the former thorough space
   return [
     {
       name: 'D:maps×default-objects',
-      bounds: { props: Object.keys(PROPS).map((p) => PROPS[p].decl), max_props: thorough ? 3 : 2, forms: FORM_KEYS, extra_key: [false, true] },
+      bounds: { props: Object.keys(PROPS).map((p) => PROPS[p].decl), max_props: deep ? 4 : 3, forms: FORM_KEYS, extra_key: [false, true] },
       *gen() {
-        for (const props of propSets(thorough ? 3 : 2)) {
-          const choices = props.map((p) => FORM_KEYS.filter((f) => applicable(p, f)));
+        for (const props of propSets(deep ? 4 : 3)) {
+          // at four props only the static / dynamic extremes of each prop's forms (the full product is covered up to three)
+          const choices = props.map((p) => FORM_KEYS.filter((f) => applicable(p, f))).map((fs) => (props.length === 4 ? fs.filter((f, i) => i < 2 || FORMS[f].dynamic || i === fs.length - 1) : fs));
           for (const forms of product(choices)) for (const extra of [false, true]) {
             if (forms.every((f) => f === 'absent') && !extra && props.length > 1) continue;
             yield { sp: 'D', props, forms, extra };
